@@ -6,3 +6,10 @@ use vstd::prelude::*;
 use vstd::std_specs::cmp::OrdSpec;
 use std::alloc::Allocator;
 use std::ops::RangeBounds;
+verus! {
+// 64-bit target: usize/isize are 8 bytes (assumption, listed in every evidence file)
+global size_of usize == 8;
+/// Rust allocation invariant: a Vec never holds more than isize::MAX elements (non-ZST element types).
+pub broadcast axiom fn axiom_vec_len_isize<T>(v: &Vec<T>)
+    ensures #[trigger] v@.len() <= isize::MAX;
+}
